@@ -993,6 +993,8 @@ func (s *Sess) deadProbe() {
 		{K: OpLookup, H: h, Name: "a"}, {K: OpLookup, H: h, Name: "."}, {K: OpLookup, H: h, Name: ".."},
 		{K: OpAccess, H: h}, {K: OpReadlink, H: h}, {K: OpRead, H: h, Count: 10},
 		{K: OpWrite, H: h, Count: 10, DataLen: 10, Uid: 1, Stable: 2},
+		{K: OpWrite, H: h, Count: 0, DataLen: 0, Uid: 1, Stable: 0}, {K: OpRead, H: h, Count: 0}, {K: OpSetattr, H: h},
+		{K: OpCommit, H: h, Off: 0, Count: 0}, {K: OpReaddir, H: h, Count: 0}, {K: OpLookup, H: h, Name: ""},
 		{K: OpCreate, H: h, Name: "zz"}, {K: OpMkdir, H: h, Name: "zz"}, {K: OpSymlink, H: h, Name: "zz", Target: "t"},
 		{K: OpRemove, H: h, Name: "a"}, {K: OpRmdir, H: h, Name: "a"},
 		{K: OpRename, H: h, Name: "a", H2: h, Name2: "b"},
